@@ -2,7 +2,8 @@
 (* A saved session restores to an observationally equivalent session (property C02).
 
    The abstract session: two datasets of fixed shapes, the SET of registered link helpers
-   (by kind), whether a key join is registered, and the ordered list of subset groups, each
+   (by kind), the kind of key join registered ("none", one-to-one "j11", one key against
+   several "j1N", several against several "jNN"), and the ordered list of subset groups, each
    holding a selection tree over elementary selection KINDS (the kinds - every SubsetState
    and Roi class found in the tree under test that the harness has a factory for - are
    given as constants generated at run time).  Building actions change the abstract state;
@@ -14,7 +15,7 @@
    observable projection of the real session before and after every SaveLoad.            *)
 EXTENDS Naturals, Sequences, FiniteSets, TLC
 
-CONSTANTS SelKinds, LinkKinds, Shapes, MaxGroups, Nest, Pairs, MaxSaves
+CONSTANTS SelKinds, LinkKinds, JoinKinds, Shapes, MaxGroups, Nest, Pairs, MaxSaves
 
 VARIABLES shape, groups, links, joined, nsaves, act
 avars == <<shape, groups, links, joined>>
@@ -34,7 +35,7 @@ Init ==
     /\ shape \in Shapes
     /\ groups = <<>>
     /\ links = {}
-    /\ joined = FALSE
+    /\ joined = "none"
     /\ nsaves = 0
     /\ act = A("Init", NoTree, "-")
 
@@ -50,10 +51,10 @@ AddLink(k) ==
     /\ act' = A("AddLink", NoTree, k)
     /\ UNCHANGED <<shape, groups, joined, nsaves>>
 
-AddJoin ==
-    /\ ~joined
-    /\ joined' = TRUE
-    /\ act' = A("AddJoin", NoTree, "-")
+AddJoin(k) ==
+    /\ joined = "none"
+    /\ joined' = k
+    /\ act' = A("AddJoin", NoTree, k)
     /\ UNCHANGED <<shape, groups, links, nsaves>>
 
 SaveLoad ==
@@ -65,7 +66,7 @@ SaveLoad ==
 Next ==
     \/ \E t \in Trees : NewGroup(t)
     \/ \E k \in LinkKinds : AddLink(k)
-    \/ AddJoin
+    \/ \E k \in JoinKinds : AddJoin(k)
     \/ SaveLoad
 
 Spec == Init /\ [][Next]_vars
